@@ -11,7 +11,8 @@ from oracles import se3
 
 MOD = "checks.c03"
 PI = np.pi
-ANG = [0.0, 1e-7, 1.0, PI - 1e-3, 2 * PI + 0.5]
+# the property's palette plus two angles inside (1e-6, 1e-3): thresholds taken on a squared quantity cut there
+ANG = [0.0, 1e-7, 2e-5, 3e-4, 1.0, PI - 1e-3, 2 * PI + 0.5]
 AXES = [(1.0, 0.0, 0.0), (0.0, 0.0, 1.0), (0.6, 0.0, 0.8), (3 ** -0.5,) * 3]
 POS = [(0.0, 0.0, 0.0), (1.0, -2.0, 3.0)]
 TOL = 5e-6
@@ -136,6 +137,36 @@ class Spec:
                     M[:3, :] = np.array([[0, -1, 0, 5.0], [1, 0, 0, 6.0], [0, 0, 1, 7.0]])
                     return r
                 ops.append(Op("ctor4x4_then_caller_refills_array", v, fun(f_m4)))
+        # two objects derived from one another never share a representation: derive, write through ONE of the two with each
+        # kind of writer, the other must stay coherent and unchanged (one transition each - a snapshot would sever the sharing)
+        v0 = [0.5, -1.5, 2.5, 0.3, -0.5, 0.8]
+        derivers = {"tm_of": lambda t: tm(t), "copy": lambda t: t.copy(), "tm_of_arr": lambda t: tm(np.array([t])),
+                    "matmul_identity": lambda t: t @ tm(), "tm_of_gTM": lambda t: tm(t.gTM())}
+        writers = {"setQuat": lambda x: x.setQuat(quat((0.0, 0.6, -0.3))),
+                   "setitem4": lambda x: x.__setitem__(4, 0.7),
+                   "set0": lambda x: x.set(0, -3.0),
+                   "sTM": lambda x: x.sTM(se3.T_from_taa(v0)),
+                   "sTAA": lambda x: x.sTAA(np.array(v0, float).reshape(6, 1)),
+                   "slice_rot": lambda x: x.__setitem__(slice(3, 6), [0.2, -0.4, 0.9]),
+                   "slice_pos": lambda x: x.__setitem__(slice(0, 3), [1.0, 2.0, 3.0]),
+                   "angleMod": lambda x: x.angleMod()}
+        for dn, D in derivers.items():
+            for wn, W in writers.items():
+                def f_wd(t, D=D, W=W):
+                    before = (np.array(t.TM, float).copy(), np.array(t.TAA, float).copy())
+                    other = D(t)
+                    W(other)
+                    return t, {"reached": max(float(np.abs(t.TM - before[0]).max()), float(np.abs(t.TAA - before[1]).max()))}
+                ops.append(Op("derive_then_write_to_derived", (dn, wn), f_wd))
+
+                def f_ws(t, D=D, W=W):
+                    other = D(t)
+                    before = (np.array(other.TM, float).copy(), np.array(other.TAA, float).copy())
+                    W(t)
+                    c, d, pma = coherence(t)
+                    return other, {"recv": [c, d, pma],
+                                   "reached": max(float(np.abs(other.TM - before[0]).max()), float(np.abs(other.TAA - before[1]).max()))}
+                ops.append(Op("derive_then_write_to_source", (dn, wn), f_ws))
         for w in RV:
             ops.append(Op("ctor3list", w, fun(lambda t, w=w: tm(list(w)))))
             ops.append(Op("ctor3arr", w, fun(lambda t, w=w: tm(np.array(w)))))
@@ -254,12 +285,16 @@ class Spec:
             E = se3.T_from_taa(op.arg)
             e = float(np.abs(st.TM - E).max()) if isinstance(getattr(st, "TM", None), np.ndarray) and st.TM.shape == (4, 4) else float("inf")
             e2 = float(np.abs(np.asarray(st.TAA, float).reshape(-1) - np.array(op.arg, float)).max()) if np.size(st.TAA) == 6 else float("inf")
+            if op.name.startswith("ctor4x4"):
+                e2 = 0.0        # built from a matrix: the six-vector is whatever logarithm the library picks (coherence judges it)
             if not (max(e, e2) <= TOL * max(1.0, float(np.abs(np.array(op.arg[:3])).max()))):
                 bad.append({"clause": "follows_callers_array", "observed": [e, e2], "tolerance": TOL, "quantities": {"pi_minus_angle": pma}})
         if "recv" in obs and obs["recv"][0]:
             c2, d2, pma2 = obs["recv"]
             bad.append({"clause": "receiver_" + c2, "observed": d2, "tolerance": TOL,
                         "quantities": {"pi_minus_angle": pma2}})
+        if not (obs.get("reached", 0.0) <= 1e-12):
+            bad.append({"clause": "write_reached_other_object", "observed": obs["reached"], "tolerance": 1e-12})
         if not (obs.get("wr", 0.0) <= 1e-9):
             q = {"pi_minus_angle": pma} if op.name in ("setQuat",) else {}
             bad.append({"clause": "written_not_read_back", "observed": obs["wr"], "tolerance": 1e-9, "quantities": q})
@@ -282,7 +317,7 @@ def run(ctx):
     with ctx.pool(ctx.workers if ctx.tier == "thorough" else 8) as pool:
         res = explorer.explore(ctx, MOD, name, depth, pool, replay_cap=200000, chunk=40)
     res["rule"] = ("BFS over histories of tm operations; alphabet = constructors/setters/operators x value palette "
-                   "(angles 0,1e-7,1,pi-1e-3,2pi+0.5; 4 axes; 2 positions); states merged when all fields agree to 1e-9")
+                   "(angles 0,1e-7,2e-5,3e-4,1,pi-1e-3,2pi+0.5; 4 axes; 2 positions); states merged when all fields agree to 1e-9")
     ctx.coverage.update(res)
     ctx.assumptions += ["operand objects are rebuilt for every application",
                         "states merged when every field agrees to 1e-9 (relative above 1)",
